@@ -797,6 +797,7 @@ def write_evidence(tier, seed, batch, wall, workers, n_viol, klines, det_info, s
             "steps_executed_simulated_time": batch.steps,
             "checked_query_pairs_used_vs_fresh": s["checked"],
             "checked_query_pairs_with_memo_or_cif_data_present": s["checked_with_memo"],
+            "answers_held_and_read_only_later": s["inspected_later"],
             "checked_pairs_equal_within_tolerance_but_not_bitwise": s["inexact_equal_pairs"],
             "inexact_by_query_and_reference_mode": pick("inexact:"),
             "runs_by_stratum": dict(batch.per_stratum),
